@@ -600,14 +600,16 @@ func handleInputStream(s *Session, handler Handler) (err error) {
 				c: readerChan.c,
 			}:
 				<-readerChan.c
+				// Consume the rest of the stream before continuing the loop.
+				_, err = xmlstream.Copy(discard, inner)
+				if err != nil {
+					return err
+				}
+				return nil
 			case <-readerChan.ctx.Done():
+				// Nobody is waiting for this response anymore, so it is handled like
+				// any other response without a matching request: by the handler.
 			}
-			// Consume the rest of the stream before continuing the loop.
-			_, err = xmlstream.Copy(discard, inner)
-			if err != nil {
-				return err
-			}
-			return nil
 		}
 	}
 
